@@ -20,7 +20,7 @@ from pyvc import plug_caches
 from pyvc.contract import Contract, LoopSpec, register, schema
 from pyvc.values import TBool, TDict, TInt, TList, TObj, TReal, TStr, ValS, declare_ghost, str_lit
 
-from contracts.c05_caches import (ARR, CONTENT, DATA, ENTRY, P, allocated, cont, cont_axiom, cont_t, contf, hashf, heap_preserved, kq,
+from contracts.c05_caches import (ARR, CONTENT, DATA, ENTRY, P, allocated, cont, cont_t, contf, hashf, heap_preserved, kq,
                                   matches_c)
 
 CELL = "multiprocessing.sharedctypes.Synchronized"
@@ -59,7 +59,7 @@ def sterm(x):
     return str_lit(x) if isinstance(x, str) else x
 
 
-AXIOMS = [("axiom:content-of", cont_axiom())]
+AXIOMS: list = []  # (axioms shared by all contracts would go here; contents are defined by a lambda, no axiom needed)
 
 
 class FC:
@@ -315,6 +315,9 @@ class _WriteData(_Storage):
         idx, grp, vals = c.old.index, sterm(c.old.group), c.old.values
         g, k = z3.Const("g!wd", TStr.sort()), kq("k!wd")
         return [
+            # the property's aliasing clause: the cache must not reference the arrays of the caller
+            # (first, so that a counter-model is searched under the preconditions only)
+            ("fresh:no-stored-array-is-the-callers", z3.ForAll([k], z3.Implies(v1.dmem(idx, grp)[k], z3.And(v1.dvals(idx, grp)[k] > v0.ctr, v1.dvals(idx, grp)[k] <= v1.ctr)))),
             ("written", z3.And(v1.init(idx), v1.has(idx, grp))),
             ("content", v1.content(idx, grp) == cont(vals, v0.heap)),
             ("size", v1.dn(idx, grp) == vals.n),
@@ -323,8 +326,6 @@ class _WriteData(_Storage):
                 v1.dvals(idx, g)[k] > 0, v1.dvals(idx, g)[k] <= v1.ctr,
                 z3.Or(v1.dvals(idx, g)[k] > v0.ctr, z3.And(v0.dmem(idx, g)[k], v0.dvals(idx, g)[k] == v1.dvals(idx, g)[k])))))),
             ("others-kept", self.others_kept(c, idx)),
-            # the property's aliasing clause: the cache must not reference the arrays of the caller
-            ("fresh:no-stored-array-is-the-callers", z3.ForAll([k], z3.Implies(v1.dmem(idx, grp)[k], z3.And(v1.dvals(idx, grp)[k] > v0.ctr, v1.dvals(idx, grp)[k] <= v1.ctr)))),
             *preserved(c),
         ]
 
@@ -747,6 +748,10 @@ class MfcHasGroup(_HasGroup):
 class MfcWriteData(_WriteData):
     targets = (MFC + "._write_data",)
     field, abstract = MEM_FIELD, False
+
+    def finding_regions(self, c):
+        # for a known_findings.json entry: the freshness clause fails exactly for the non-shared (plain dict) storage
+        return {"not-shared": z3.Not(c.old.self._MemoryFullCache__is_memory_shared)}
 
 
 @register
